@@ -1,0 +1,25 @@
+//go:build verif
+
+package random
+
+// Verification hook (build tag "verif" only; not part of the package otherwise).
+//
+// TapeRand is a Rand whose core Read is supplied by the caller, so that the generic
+// methods of the package (UintN, Permutation, SubPermutation, Shuffle, Samples) can be run
+// on chosen byte tapes, e.g. tapes holding long runs of draws that UintN must reject.
+
+type tapeCore struct {
+	read func([]byte)
+}
+
+func (t *tapeCore) Read(b []byte) { t.read(b) }
+
+// TapeRand implements Rand over a caller-supplied byte source.
+type TapeRand struct {
+	genericPRG
+}
+
+// NewTapeRand returns a Rand that draws its bytes from `read`.
+func NewTapeRand(read func([]byte)) *TapeRand {
+	return &TapeRand{genericPRG: genericPRG{randCore: &tapeCore{read: read}}}
+}
